@@ -4,13 +4,15 @@ zndriver: the Lean side of the line protocol.  One operation per input line, one
 -/
 import ZnVerif.Ops.C04
 import ZnVerif.Ops.Run
+import ZnVerif.Ops.C12
 
 open ZnVerif.Ops
 
 /-- one handler per ops module; first `some` wins -/
 def handlers : List (String → List String → Option String) := [
   C04.handle,
-  Run.handle
+  Run.handle,
+  C12.handle
 ]
 
 def dispatch (op : String) (args : List String) : String :=
